@@ -235,5 +235,25 @@ theorem values_fromList_perm {R : Rules α} (hR : R.Lawful) {l : List α} (h : I
   have := values_addWhere_true_perm hR l empty (invB_empty R) (by simpa [empty, values] using h)
   simpa [fromList, empty, values] using this
 
+/-! ### iteration order -/
+
+/-- `less` is a strict order on the members `l`, total between inequivalent ones
+(so, members being pairwise inequivalent, exactly one of `less a b`, `less b a`
+holds for two different members). -/
+structure StrictTotalOn (R : Rules α) (less : α → α → Bool) (l : List α) : Prop where
+  irrefl : ∀ a ∈ l, less a a = false
+  trans : ∀ a ∈ l, ∀ b ∈ l, ∀ c ∈ l, less a b = true → less b c = true → less a c = true
+  total : ∀ a ∈ l, ∀ b ∈ l, R.equiv a b = false → less a b = true ∨ less b a = true
+
+theorem StrictTotalOn.toList {R : Rules α} {less : α → α → Bool} {l : List α}
+    (h : StrictTotalOn R less l) (hl : Inequiv R l) : StrictTotalOnList less l :=
+  ⟨h.irrefl, h.trans, List.Pairwise.imp_of_mem (fun ha hb he => h.total _ ha _ hb he) hl⟩
+
+/-- sorted iteration order is a function of the member multiset -/
+theorem valuesSorted_eq_of_perm {R : Rules α} (less : α → α → Bool) {s1 s2 : SetImpl α}
+    (h1 : Inequiv R (values s1)) (hp : (values s1).Perm (values s2))
+    (ht : StrictTotalOn R less (values s1)) : valuesSorted less s1 = valuesSorted less s2 :=
+  sortStable_eq_of_perm less hp (ht.toList h1)
+
 end SetImpl
 end CtyModel
